@@ -10,6 +10,13 @@ def run(tier, seed):
     chk = vlib.Check(PID, tier, seed)
     quick = tier == "quick"
     vlib.tlc_check(chk, "H_Cond abstract object (timed + untimed waiters), exhaustive", os.path.join(SPEC, "H_Cond.tla"), os.path.join(SPEC, "H_CondMC.cfg"), timeout=600)
+    d = os.path.join(VERIF, "spec", "sync")
+    vlib.tlc_check(chk, "Waitlist: the wait list with partially maintained back pointers as coded (signal / broadcast / time-out removal), exhaustive",
+                   os.path.join(d, "Waitlist.tla"), os.path.join(d, "WaitlistMC4.cfg" if quick else "WaitlistMC.cfg"), timeout=900)
+    r = vlib.tlc_check(chk, "Waitlist with a wrong back-pointer repair (must be violated)", os.path.join(d, "Waitlist.tla"), os.path.join(d, "WaitlistBroken.cfg"),
+                       timeout=300, expect="violation")
+    if not r["violated"]:
+        raise vlib.Broken("the broken variant of Waitlist is not rejected: the invariants are vacuous")
     vlib.history_check(chk, "d_sync", ["condtimed"], "H_Cond", quick, seed,
                        what="timed wait history: TIMEDOUT before the deadline or after being signalled, SUCCESS without a signal, or mutex not held at return")
     # blocking pool pops: single consumer, every unit is pushed while it waits
